@@ -5,7 +5,7 @@ import hashlib, json, os, re
 import common as c
 
 N = {"quick": 400, "thorough": 40000}
-OPK = ("S", "D", "T", "C", "X", "R", "L", "Q", "P", "V", "M")
+OPK = ("S", "D", "T", "C", "X", "R", "L", "Q", "P", "V", "M", "K")
 
 
 def parse_contents(s):
@@ -228,7 +228,14 @@ def oracle(h, prop):
                         return i, "version %d should have been pruned under keepRecent=%d keepEvery=%d after %d commits but is readable" % (v, kr, ke, top), {"kind": "pruned-readable"}
         elif k == "Q":
             store, key, hgt, prove = t[1], t[2], int(t[3]), t[4] == "true"
-            if prop != "C14" or store in late:
+            if prop not in ("C14", "C12") or store in late:
+                continue
+            if prop == "C12":
+                # C12's share: a version the pruning rule has released (or that does not exist yet) is not readable
+                h0 = hgt if hgt != 0 else (cur - 1 if (cur - 1) in disk else cur)
+                b0 = res.split(" ")[0]
+                if h0 not in disk and not policy_changed and h0 > 0 and b0 not in ("noversion", "err") and not b0.startswith("panic"):
+                    return i, "query at height %d, which should have been pruned (or does not exist yet), answers `%s`" % (h0, b0), {"kind": "pruned-readable"}
                 continue
             if res.startswith("panic"):
                 return i, "store query panics: %s" % res[6:70], {"kind": "query-panic", "key_all_ff": set(key) <= set("f"), "prove": prove}
@@ -266,6 +273,8 @@ def oracle(h, prop):
             else:
                 if body.startswith("val="):
                     return i, "query for the pruned/future height %d returned data" % hgt, {"kind": "data-from-other-height"}
+                if body == "none" and not policy_changed and hgt > top:
+                    return i, "query for the future height %d answers 'no such key' instead of 'no such version'" % hgt, {"kind": "absent-instead-of-no-version"}
                 if "proof=ok" in res:
                     return i, "query for the pruned/future height %d returned a proof" % hgt, {"kind": "data-from-other-height"}
         elif k == "V":
@@ -291,7 +300,7 @@ def oracle(h, prop):
     return None
 
 
-def run(a, prop, what):
+def run(a, prop, what, extra=None):
     res = c.build(["ms"])
     v = c.Verdict(prop, a.tier, a.seed)
     c.check_build(v, res, prop)
@@ -354,6 +363,8 @@ def run(a, prop, what):
                     v.broken_obligation("correspondence ms/%s: implementation and proved model differ at `%s`" % (prop, op[:80]),
                                         {"history": [h["header"]] + [o[0] for o in h["ops"][:j + 1]] + ["E"], "impl": io[:400], "model": mo[:400]})
                 break
+    if extra is not None:
+        extra(a, v, cov)
     stats = json.load(open(os.path.join(out, "ms.stats.json")))
     cov.update({
         "evaluations": len(hs), "distinct_nontrivial": len(distinct),
@@ -369,4 +380,4 @@ def run(a, prop, what):
 
 def relevant(prop, op):
     k = op.split(" ")[0]
-    return {"C12": k in ("C", "R", "L", "S", "D", "T", "P"), "C13": k in ("X",), "C14": k in ("Q",), "C01": k in ("C", "X")}[prop]
+    return {"C12": k in ("C", "R", "L", "S", "D", "T", "P", "Q", "V", "M", "K"), "C13": k in ("X",), "C14": k in ("Q", "V"), "C01": k in ("C", "X")}[prop]
